@@ -924,7 +924,7 @@ def drift_corrected(ns, r, default_qpm=120.0):
     from note_seq.protobuf import music_pb2
     tpq = r.ticks_per_quarter
     tin = TempoMap(tpq, [(t.time, t.qpm) for t in ns.tempos], default_qpm)
-    ret = sorted((F(t.time), F(t.qpm)) for t in r.tempos)
+    ret = sorted(((F(t.time), F(t.qpm)) for t in r.tempos), key=lambda x: x[0])    # stable: of two changes on one tick the later stays later
     if not ret or ret[0][0] != 0:
         return None
     fixed, short = [], False
